@@ -2,6 +2,7 @@ package main
 
 import (
 	"fmt"
+	"net/textproto"
 	"sort"
 	"strconv"
 	"go/types"
@@ -123,8 +124,7 @@ func (e *Enc) call(in *ssa.Call, st *State) {
 			return
 		}
 		if lf := localClosure(c.Value); lf != nil {
-			e.applyEffect(st, e.effectOf(lf))
-			e.set(in, e.freshVal("localcall."+lf.Name(), in.Type()))
+			e.localClosureCall(in, lf, c, st)
 			return
 		}
 		pre := st.clone()
@@ -334,6 +334,9 @@ func (e *Enc) staticCallV(in *ssa.Call, callee *ssa.Function, args []ssa.Value, 
 	}
 	cn := siteNameOf(callee)
 	asserted := e.callSiteHooks(in, cn, callee.Name(), args, argv, st)
+	if e.headerOp(in, callee, cn, argv, st) {
+		return
+	}
 	if e.db.pureFns[callee.String()] {
 		e.note("dependency function %s is assumed pure (uninterpreted function of its arguments)", callee.String())
 		res := e.ufTerm("pure."+callee.String(), argv, in.Type())
@@ -444,7 +447,11 @@ func (e *Enc) staticCallV(in *ssa.Call, callee *ssa.Function, args []ssa.Value, 
 		env := &Env{e: e, st: st, old: &pre, vars: vars}
 		for _, en := range con.Ensures {
 			if e.active(en) {
-				e.assumeHere(env.formula(en.E))
+				// a clause that speaks about the callee's internals (resultof / reached of its own call sites) cannot be
+				// used by callers: it is simply not assumed
+				if f, ok := e.tryFormula(env, en.E); ok {
+					e.assumeHere(f)
+				}
 			}
 		}
 	}
@@ -673,4 +680,180 @@ func (e *Enc) mapLen(st *State, t types.Type, m *Val) *Val {
 	e.assume(eq(v, term))
 	e.assume(app(">=", v, "0"))
 	return &Val{typ: tInt, c: []string{v}}
+}
+
+var headerOps = map[string]string{
+	"(net/http.Header).Get": "get", "(net/http.Header).Set": "set", "(net/http.Header).Add": "add", "(net/http.Header).Del": "del",
+	"(net/textproto.MIMEHeader).Get": "get", "(net/textproto.MIMEHeader).Set": "set", "(net/textproto.MIMEHeader).Add": "add", "(net/textproto.MIMEHeader).Del": "del",
+}
+
+// canon: textproto.CanonicalMIMEHeaderKey as an uninterpreted function, evaluated for literals.
+func (e *Enc) canon(k string) string {
+	f := e.declareFun("uf!textproto.canon", "(Str) Str")
+	t := app(f, k)
+	if lit, ok := e.litOf[k]; ok {
+		key := "canonfact:" + k
+		if !e.declared[key] {
+			e.declared[key] = true
+			e.assume(eq(t, e.strLit(textproto.CanonicalMIMEHeaderKey(lit))))
+		}
+	}
+	return t
+}
+
+// headerOp gives http.Header / textproto.MIMEHeader methods their map semantics (Get/Set/Add/Del over the
+// canonicalised key) instead of treating them as opaque dependency calls. Assumed from the net/http documentation.
+func (e *Enc) headerOp(in *ssa.Call, callee *ssa.Function, site string, argv []*Val, st *State) bool {
+	op, ok := headerOps[callee.String()]
+	if !ok {
+		return false
+	}
+	mi := mapInfoOf(argv[0].typ)
+	if !mi.ok {
+		return false
+	}
+	e.note("http.Header.%s modelled as a map operation on the canonicalised key (net/http documentation)", callee.Name())
+	h := argv[0].c[0]
+	ck := e.canon(argv[1].c[0])
+	tstr := types.Typ[types.String]
+	cell := func(s *State) string { return e.arr(s, "C|"+typeKey(tstr)+"|", "Str") }
+	switch op {
+	case "get":
+		has := e.mapHas(st, mi, h, ck)
+		v := e.mapGet(st, mi, h, ck)
+		r := e.fresh("hdr.get", "Str")
+		first := sel(cell(st), app("elem", v.c[0], v.c[1]))
+		e.assume(eq(r, ite(and(has, app(">", v.c[2], "0")), first, "str!empty")))
+		res := &Val{typ: in.Type(), c: []string{r}}
+		e.set(in, res)
+		e.siteResults[fmt.Sprintf("%s#%d", site, e.lastOrd[site])] = res
+	case "set", "add":
+		e.oblige("mapnil", "header", in.Pos(), not(eq(h, "null")))
+		ref := e.allocRef(st)
+		has := e.mapHas(st, mi, h, ck)
+		old := e.mapGet(st, mi, h, ck)
+		n := "1"
+		if op == "add" {
+			n = app("+", ite(has, old.c[2], "0"), "1")
+		}
+		last := app("-", n, "1")
+		cname := "C|" + typeKey(tstr) + "|"
+		e.setArr(st, cname, "Str", sto(cell(st), app("elem", ref, last), argv[2].c[0]))
+		hm := e.marr(st, mi.hasN, mi.ksort, "Bool")
+		e.setMarr(st, mi.hasN, mi.ksort, "Bool", sto(hm, h, sto(sel(hm, h), ck, "true")))
+		nv := []string{ref, "0", n, n}
+		for j, l := range leaves(mi.vt) {
+			a := e.marr(st, mi.valN(l), mi.ksort, l.sort)
+			e.setMarr(st, mi.valN(l), mi.ksort, l.sort, sto(a, h, sto(sel(a, h), ck, nv[j])))
+		}
+	case "del":
+		e.mapDelete(argv[0].typ, h, ck, st)
+	}
+	return true
+}
+
+// localClosureCall: a call through a local variable that holds a function literal of this function. The closure's
+// contract (if any) is applied: preconditions are obligations, the inferred write set is havocked, postconditions
+// are assumed; free variables in the contract mean the captured variables' current values.
+func (e *Enc) localClosureCall(in *ssa.Call, lf *ssa.Function, c *ssa.CallCommon, st *State) {
+	con := e.db.byFunc[fname(lf)]
+	vars := map[string]*Val{}
+	for i, p := range lf.Params {
+		if i < len(c.Args) {
+			vars[p.Name()] = e.val(c.Args[i])
+		}
+	}
+	// bindings of the closure: found at its creation site in this function (or, for a captured closure variable,
+	// in the enclosing function: then captured values are not known here)
+	for _, b := range e.fn.Blocks {
+		for _, ins := range b.Instrs {
+			mc, ok := ins.(*ssa.MakeClosure)
+			if !ok || mc.Fn != lf {
+				continue
+			}
+			for i, fv := range lf.FreeVars {
+				bd := mc.Bindings[i]
+				if a, ok := bd.(*ssa.Alloc); ok {
+					if pv, known := e.vals[a]; known {
+						vars[fv.Name()] = e.loadAt(st, pv.c[0], a.Type().Underlying().(*types.Pointer).Elem())
+					}
+				} else if bv, known := e.vals[bd]; known {
+					vars[fv.Name()] = bv
+				}
+			}
+		}
+	}
+	pre := st.clone()
+	if con != nil {
+		env := &Env{e: e, st: st, old: st, vars: vars, noLocals: true}
+		for _, r := range con.Requires {
+			e.obligeClause("pre:"+lf.Name(), r, in.Pos(), env.formula(r.E))
+		}
+	}
+	e.applyEffect(st, e.effectOf(lf))
+	res := e.freshVal("localcall."+lf.Name(), in.Type())
+	e.set(in, res)
+	if con != nil {
+		results := lf.Signature.Results()
+		if results.Len() == 1 {
+			vars["result"], vars["result0"] = res, res
+			if types.TypeString(results.At(0).Type(), nil) == "error" {
+				vars["err"] = res
+			}
+		} else {
+			for i := 0; i < results.Len(); i++ {
+				lo, hi := tupleRange(results, i)
+				rv := &Val{typ: results.At(i).Type(), c: res.c[lo:hi]}
+				vars[fmt.Sprintf("result%d", i)] = rv
+				if i == 0 {
+					vars["result"] = rv
+				}
+				if types.TypeString(results.At(i).Type(), nil) == "error" {
+					vars["err"] = rv
+				}
+			}
+		}
+		// free variables after the call
+		for _, b := range e.fn.Blocks {
+			for _, ins := range b.Instrs {
+				if mc, ok := ins.(*ssa.MakeClosure); ok && mc.Fn == lf {
+					for i, fv := range lf.FreeVars {
+						if a, ok := mc.Bindings[i].(*ssa.Alloc); ok {
+							if pv, known := e.vals[a]; known {
+								vars[fv.Name()] = e.loadAt(st, pv.c[0], a.Type().Underlying().(*types.Pointer).Elem())
+							}
+						}
+					}
+				}
+			}
+		}
+		env := &Env{e: e, st: st, old: &pre, vars: vars, noLocals: true}
+		for _, en := range con.Ensures {
+			if e.active(en) {
+				// a clause that speaks about the callee's internals (resultof / reached of its own call sites) cannot be
+				// used by callers: it is simply not assumed
+				if f, ok := e.tryFormula(env, en.E); ok {
+					e.assumeHere(f)
+				}
+			}
+		}
+	}
+	site := "dyn:" + callbackNameOr(c.Value)
+	e.siteResults[fmt.Sprintf("%s#%d", site, e.lastOrd[site])] = res
+}
+
+func callbackNameOr(v ssa.Value) string {
+	if n := callbackName(v); n != "" {
+		return n
+	}
+	return exprText(v)
+}
+
+func (e *Enc) tryFormula(env *Env, x Expr) (f string, ok bool) {
+	defer func() {
+		if r := recover(); r != nil {
+			f, ok = "", false
+		}
+	}()
+	return env.formula(x), true
 }
